@@ -13,6 +13,12 @@ var primitiveConversionsSafe = map[cty.Type]map[cty.Type]conversion{
 	cty.Number: {
 		cty.String: func(val cty.Value, path cty.Path) (cty.Value, error) {
 			f := val.AsBigFloat()
+			if f.IsInt() {
+				// Whole numbers compare exactly, so they must be written
+				// exactly rather than as the shortest text that identifies
+				// them at their own precision.
+				return cty.StringVal(f.Text('f', 0)), nil
+			}
 			return cty.StringVal(f.Text('f', -1)), nil
 		},
 	},
